@@ -1,7 +1,7 @@
 (* Props_C18.v — C18: reply cascades terminate (PARTIAL: per-delivery mechanisms).
    The whole-network termination statement is decided by the frozen-timer simulation of
    real instances; proved here: what each message kind can trigger. *)
-From Foca Require Import Laws MembersM FocaM WireM L_Members L_MembersInv Inv L_Wire L_Discard L_Probe L_Mech.
+From Foca Require Import Laws MembersM FocaM WireM L_Members L_MembersInv Inv L_Wire L_Discard L_Probe L_Mech L_FanOut.
 
 Section C18.
 Context {Id Addr : Type} {IO : IdOps Id Addr} {CO : CodecOps Id} {HO : HandlerOps Id}.
@@ -54,9 +54,35 @@ Theorem C18_inactive_sender_one_reply (rnd : oracle) (h : header Id) ul tail (s 
   (when (notify_down_members (cfg (st s1))) (send_message rnd (h_src h) TurnUndead)) s1.
 Proof. exact (inactive_sender_discards rnd h ul tail s s1). Qed.
 
+(* every delivered datagram causes at most a bounded number of new datagrams: with fan-out
+   F = num_indirect_probes and k member updates in the datagram, at most (k + 1) * F + 1
+   (one reply or TurnUndead courtesy; one gossip burst per update about the receiver, one more
+   for a TurnUndead-triggered rejoin) *)
+Theorem C18_delivery_fanout_bound (rnd : oracle) (F : N) (f : @foca Id Addr HO) (data : bytes) :
+  num_indirect_probes (cfg f) = F ->
+  nsends (snd (fst (fst (step rnd f (IData data))))) <= (updates_in data + 1) * F + 1.
+Proof. exact (step_data_fanout rnd F f data). Qed.
+
+Theorem C18_fanout_terms (es : list (effect Id)) (data : bytes) :
+  nsends es = len (filter is_send es)
+  /\ updates_in data =
+     match dec_hdr data with
+     | Some (h, rest) =>
+         if (2 <=? len rest) && negb (message_eqb id_eqb (h_msg h) Broadcast) then
+           match get_u16 rest with
+           | Some (n, r) => match dec_members (N.to_nat n) r with Some (ul, _) => len ul | None => 0 end
+           | None => 0
+           end
+         else 0
+     | None => 0
+     end.
+Proof. split; reflexivity. Qed.
+
 End C18.
 
 Print Assumptions C18_terminal_kinds.
 Print Assumptions C18_reply_rank_decreases.
 Print Assumptions C18_no_turnundead_ping_pong.
 Print Assumptions C18_inactive_sender_one_reply.
+Print Assumptions C18_delivery_fanout_bound.
+Print Assumptions C18_fanout_terms.
